@@ -110,7 +110,7 @@ Proof. induction f as [|f IH]; intros v; cbn [leb_write_fuel length]; [lia|]. de
 Lemma leb_write_length v : (length (leb_write v) <= 10)%nat.
 Proof. apply leb_write_fuel_length. Qed.
 
-Lemma enc_stream_app es e : enc_stream (es ++ [e]) = enc_stream es ++ enc_entry e.
+Lemma enc_stream_app bits es e : enc_stream bits (es ++ [e]) = enc_stream bits es ++ enc_entry bits e.
 Proof. unfold enc_stream. rewrite map_app, concat_app. cbn [map concat]. now rewrite app_nil_r. Qed.
 
 Lemma b_tt_blk lz (x : blk) : b_tt (blk_block lz x) = (let '(_, _, ttb, _, _) := x in ttb).
@@ -126,12 +126,18 @@ Qed.
 Lemma forall2_length {A B} (P : A -> B -> Prop) l1 l2 : Forall2 P l1 l2 -> length l1 = length l2.
 Proof. induction 1; cbn; congruence. Qed.
 
+Lemma wns_single st v : write_n_state_loop st [v] 0 None = [v].
+Proof.
+  cbn [write_n_state_loop length]. change (N.of_nat 0) with 0. rewrite N.mul_0_l. change (0 mod 8 =? 0) with true.
+  cbn iota. now rewrite N.mul_0_l, N.add_0_l.
+Qed.
+
 Lemma join_l' a b : states_num a <= states_num (join a b).
 Proof. rewrite join_num. lia. Qed.
 Lemma join_r' a b : states_num b <= states_num (join a b).
 Proof. rewrite join_num. lia. Qed.
 Lemma wf_mono' mx mx' bits e : states_num mx <= states_num mx' -> wf_sentry mx bits e -> wf_sentry mx' bits e.
-Proof. destruct e as [[d l] p]. unfold wf_sentry, wf_entry. intros H [(Hb & Hle & Hl) Hlt]. repeat split; try assumption. lia. Qed.
+Proof. destruct e as [[d l] p]. unfold wf_sentry, wf_entry. intros H [(Hb & Hle & Hl) Hlt]. split; [repeat split; try assumption; lia|exact Hlt]. Qed.
 
 (* ------------------------------------------------------------------ the invariant of one bit-vector signal *)
 Section Enc.
@@ -142,7 +148,7 @@ Hypothesis cap_pos : 1 <= cap.
 Hypothesis cap_u16 : cap <= 65536.
 Variable id : nat.
 Variable bits : nat.
-Hypothesis bits_ge2 : (2 <= bits)%nat.
+Hypothesis bits_ge2 : (1 <= bits)%nat.
 
 Notation time_change := (time_change lz_compress cap).
 Notation run_op := (run_op parse_f64 lz_compress cap).
@@ -169,7 +175,7 @@ Record sinv (e : encoder) (bl : list blk) (es : list sentry) (R : list aentry) :
   si_ok : Forall (blk_ok id bits) bl;
   si_idle : e_ttr e = [] -> es = [];
   si_sig : exists se, nth_error (e_signals e) id = Some se /\ se_tpe se = EncBits bits /\
-             se_data se = enc_stream es /\ Forall (wf_sentry (se_max se) bits) es /\
+             se_data se = enc_stream bits es /\ Forall (wf_sentry (se_max se) bits) es /\
              se_prev se = sum_deltas es /\
              N.of_nat (length (se_data se)) <= N.of_nat (length es) * (10 + N.of_nat bits);
   si_count : (length es <= length R)%nat;
@@ -206,9 +212,8 @@ Proof.
     destruct (Nat.eqb_spec i id) as [->|Hne]; cbn [negb].
     + (* the signal itself *)
       rewrite Hn in Eni. inversion Eni; subst sei; clear Eni.
-      assert (Hb1 : bits <> 1%nat) by lia.
-      destruct (add_vcd_change_entry parse_f64 se _ value bits sei' Htp Hb1 Eadd)
-        as (st & chars & nums & Hnorm & Hlc & Hcn & Hsm & H8 & Hmin & Hle & Hdata & Htp' & Hprev' & Hmax').
+      destruct (add_vcd_change_entry parse_f64 se _ value bits sei' Htp Eadd)
+        as (st & chars & nums & Hnorm & Hlc & Hcn & Hsm & H8 & Hmin & Hle & Hdata & Hone & Htp' & Hprev' & Hmax').
       pose proof (inv_len _ Hinv) as Hlen. rewrite Ettr in Hlen. cbn [length] in Hlen.
       assert (Hidx : u16_wrap (e_len e - 1) = e_len e - 1) by (unfold u16_wrap; rewrite N.mod_small; lia).
       rewrite Hidx in *.
@@ -223,13 +228,19 @@ Proof.
            split.
            { apply Forall_app. split.
              - eapply Forall_impl; [|exact Hwf]. intros a. apply wf_mono'. rewrite Hmax'. apply join_l'.
-             - constructor; [|constructor]. unfold ent, wf_sentry, wf_entry. repeat split.
-               + exact bits_ge2.
-               + rewrite Hmax'. apply join_r'.
-               + rewrite packed_length. congruence.
-               + pose proof (states_num_lt4 st). assert (2 ^ 32 = 4294967296) by reflexivity. lia. }
+             - constructor; [|constructor]. unfold ent, wf_sentry. split.
+               + repeat split; [exact bits_ge2|rewrite Hmax'; apply join_r'|rewrite packed_length; congruence].
+               + destruct (Nat.eqb_spec bits 1) as [E1|E1].
+                 * specialize (Hone E1). assert (Hl1 : length nums = 1%nat) by congruence.
+                   destruct nums as [|bv [|bv2 r]]; try discriminate. rewrite wns_single. cbn [hd] in *.
+                   apply Forall_cons_iff in H8 as [H8 _]. assert (2 ^ 32 = 4294967296) by reflexivity.
+                   repeat split; [lia|exact H8|exact Hone].
+                 * pose proof (states_num_lt4 st). assert (2 ^ 32 = 4294967296) by reflexivity. lia. }
            split; [rewrite sum_deltas_app; unfold ent; cbn [fst]; lia|].
-           rewrite Hdata, !app_length. unfold ent at 1, enc_entry. rewrite app_length, packed_length.
+           rewrite Hdata, !app_length. unfold ent at 1, enc_entry.
+           destruct (Nat.eqb bits 1).
+           { pose proof (leb_write_length ((e_len e - 1 - se_prev se) * 16 + hd 0 (write_n_state_loop st nums 0 None))). cbn [length]. nia. }
+           rewrite app_length, packed_length.
            pose proof (leb_write_length ((e_len e - 1 - se_prev se) * 4 + states_num st)).
            assert (div_ceil (length nums) (per_byte st) <= bits)%nat.
            { unfold div_ceil. rewrite Hln, Hlc. destruct st; cbn [per_byte]; lia. }
@@ -479,7 +490,7 @@ Qed.
 
 Section Final.
 Variable bits : nat.
-Hypothesis bits_ge2 : (2 <= bits)%nat.
+Hypothesis bits_ge2 : (1 <= bits)%nat.
 
 Definition rok (mx : states) (a : aentry) : Prop :=
   rec_ok bits a /\ states_num (snd (fst a)) <= states_num mx.
@@ -592,7 +603,7 @@ Hypothesis cap_pos : 1 <= cap.
 Hypothesis cap_u16 : cap <= 65536.
 Variable id : nat.
 Variable bits : nat.
-Hypothesis bits_ge2 : (2 <= bits)%nat.
+Hypothesis bits_ge2 : (1 <= bits)%nat.
 
 (* Property C04 for bit-vector signals written through the VCD path: for every history of time stamps
    and value changes (of any number of signals), every block capacity (every segmentation) and every
@@ -681,7 +692,7 @@ Hypothesis cap_pos : 1 <= cap.
 Hypothesis cap_u16 : cap <= 65536.
 Variable id : nat.
 Variable bits : nat.
-Hypothesis bits_ge2 : (2 <= bits)%nat.
+Hypothesis bits_ge2 : (1 <= bits)%nat.
 
 (* an encoder whose pending data has been moved into blocks *)
 Definition fin (e : encoder) (bl : list blk) (R : list aentry) : Prop :=
@@ -857,7 +868,7 @@ Theorem storage_independent_of_segmentation
   parse1 parse2 lzc1 lzd1 lzc2 lzd2 cap1 cap2 id bits tpes ops e1 e2 b1 t1 b2 t2 :
   (forall d n, (length d <= n)%nat -> lzd1 (lzc1 d) n = Some d) ->
   (forall d n, (length d <= n)%nat -> lzd2 (lzc2 d) n = Some d) ->
-  1 <= cap1 <= 65536 -> 1 <= cap2 <= 65536 -> (2 <= bits)%nat ->
+  1 <= cap1 <= 65536 -> 1 <= cap2 <= 65536 -> (1 <= bits)%nat ->
   nth_error tpes id = Some (EncBits bits) -> Forall (op_ok id) ops ->
   N.of_nat (count_vcd id ops) * (10 + N.of_nat bits) < 4294967264 ->
   run_ops parse1 lzc1 cap1 (enc_new tpes) ops = Ok e1 -> enc_finish lzc1 e1 = Ok (b1, t1) ->
@@ -899,7 +910,7 @@ Hypothesis cap_pos : 1 <= cap.
 Hypothesis cap_u16 : cap <= 65536.
 Variable id : nat.
 Variable bits : nat.
-Hypothesis bits_ge2 : (2 <= bits)%nat.
+Hypothesis bits_ge2 : (1 <= bits)%nat.
 
 (* loading from a finished encoder *)
 Lemma fin_load e bl R blocks ttb : fin lz_compress id bits e bl R ->
